@@ -19,24 +19,24 @@ import (
 type ssaFunction = ssa.Function
 
 type Obligation struct {
-	Key       string `json:"key"`  // rule/function/construct — never a line number
-	Rule      string `json:"rule"` // rule id, e.g. T-TABLE(doUpdate)
-	Pos       string `json:"pos"`
-	Verdict   string `json:"verdict"` // ok | violation | undecided | known
-	Detail    string `json:"detail,omitempty"`
-	PathDump  string `json:"path,omitempty"`
+	Key      string `json:"key"`  // rule/function/construct — never a line number
+	Rule     string `json:"rule"` // rule id, e.g. T-TABLE(doUpdate)
+	Pos      string `json:"pos"`
+	Verdict  string `json:"verdict"` // ok | violation | undecided | known
+	Detail   string `json:"detail,omitempty"`
+	PathDump string `json:"path,omitempty"`
 }
 
 type Ctx struct {
-	P     *Prog
-	Prop  string
-	Tier  string
-	Obs   []*Obligation
-	seen  map[string]*Obligation
-	funcs map[string]bool
-	paths int
-	sites int
-	notes []string
+	P      *Prog
+	Prop   string
+	Tier   string
+	Obs    []*Obligation
+	seen   map[string]*Obligation
+	funcs  map[string]bool
+	paths  int
+	sites  int
+	notes  []string
 	floors []floor
 }
 
